@@ -232,7 +232,7 @@ fn one_case(rep: &Report, idx: usize, seed: u64) -> Option<(String, String)> {
 
 pub fn run(tier: Tier, seed: u64) -> i32 {
     let rep = Report::new("C17", "exploration", tier, seed);
-    let n = tier.pick(420, 5000);
+    let n = tier.pick(600, 8000);
     let res = par_map(n, crate::util::ncpu(), |i| (i, one_case(&rep, i, seed)));
     for (i, r) in res {
         if let Some((why, desc)) = r {
